@@ -167,12 +167,16 @@ class World:
             cutoff = T(self.grid[len(self.grid) // 2 - 1], tick)
             early = [ev for ev in self.events if ev.time <= cutoff]
             if early:
-                tr.add_events(list(early))
+                # every other time the WHOLE history is loaded up front (the first environment simply uses a shorter grid): the
+                # events beyond that grid's end are not due yet, they are not gone
+                whole = len(self.events) % 2 == 1
+                tr.add_events(list(self.events) if whole else list(early))
                 pre = TradingEnv(action_space=BoxPortfolio([self.A, self.B], low=0.0, high=1.0), transmitter=tr,
                                  latency=float(cfg["lat"] * tick))
                 impl.classify(lambda: pre.reset(fold="f"))
                 tr.add_timesteps([t for t in ts if t > cutoff])
-                tr.add_events([ev for ev in self.events if ev.time > cutoff])
+                if not whole:
+                    tr.add_events([ev for ev in self.events if ev.time > cutoff])
             else:
                 tr.add_timesteps([t for t in ts if t > cutoff])
                 tr.add_events(list(self.events))
@@ -384,7 +388,17 @@ class World:
         a = self.action(act)
         # a policy's pre-allocated buffer: the same array object is overwritten in place and submitted at every step (what
         # an action denotes is its content when it is submitted, not the identity of the object carrying it)
-        if isinstance(a, np.ndarray) and a.dtype == float:
+        if isinstance(a, np.ndarray) and a.dtype == float and a.ndim == 1 and act["cls"] == "ok" \
+                and (len(self.cfg["events"]) + self.cfg["delay"]) % 2 == 1:
+            # ... every other configuration the carrier is a plain Python list (a Box action may be any sequence of floats),
+            # recycled the same way
+            lb = getattr(self, "_lbuf", None)
+            if lb is not None and len(lb) == len(a):
+                lb[:] = [float(x) for x in a]
+                a = lb
+            else:
+                self._lbuf = a = [float(x) for x in a]
+        elif isinstance(a, np.ndarray) and a.dtype == float:
             buf = getattr(self, "_buf", None)
             if buf is not None and buf.shape == a.shape:
                 buf[...] = a
